@@ -892,9 +892,11 @@ def analyse_pair(tname, doc):
                         st.transitions += work
                         sels[c.variant] = sel
                         x = c.gov.get(sel[0])
+                        lookup_ns = c.forms[fi][2] if c.forms[fi][2] is not None else \
+                            {pfx: ns for ns, pfx in c.forms[fi][1].items()}
                         try:
                             got = c.schema.get_element(c.elems[sel[0]].tag, g.render_path(steps[c.variant], c.forms[fi][1]),
-                                                       c.forms[fi][2]) if c.forms[fi][2] is not None else x
+                                                       lookup_ns)
                         except Exception:      # noqa
                             got = None
                         if x is None or got is None or res(got) is not res(x) or any(c.gov.get(i) is None for i in sel):
@@ -933,7 +935,7 @@ def analyse_pair(tname, doc):
                                     st.outcomes['twins-errors:DISC'] += 1
                                 else:
                                     st.outcomes['twins-errors:agree-%s' % ('empty' if not exp else 'nonempty')] += 1
-                            if not c.has_ident and pvalid != (not exp):
+                            if not c.has_ident and not any(is_identity_error(e) for e in perrs) and pvalid != (not exp):
                                 discs.append(_pair_disc(tname, 'seq-is_valid', path, flabel, '%s:%s' % (tag, pvalid),
                                                         '%s: is_valid(path=%r) on the %s document (%s) is %s; %d error(s) expected'
                                                         % (doc['docid'], path, c.variant, tag, pvalid, sum(exp.values()))))
